@@ -443,6 +443,9 @@ pub enum Dev<F: PrimeField> {
     Witness { idx: usize, delta: F },
     /// the k-th explicit constraint's constant is shifted; `both` = on both roles, else verifier only
     KConst { k: usize, delta: F, both: bool },
+    /// both roles: the k-th explicit constraint's constant is shifted by an amount derived from the
+    /// constraint's own constant terms (sel 0: -(sum), 1: +(sum), 2: -(first), 3: +(last))
+    KConstStruct { k: usize, sel: usize },
     /// verifier only: coefficient `term` of the k-th explicit constraint shifted
     KCoef { k: usize, term: usize, delta: F },
     /// prover only (hook H1): gate assignment overwritten at the end of the gate's phase
@@ -789,6 +792,16 @@ pub fn exec_op<F: PrimeField>(op: Op, ctx: &mut Ctx<F>, side: &mut dyn Side<F>) 
             match &ctx.dev {
                 Dev::KConst { k, delta, both } if *k == ctx.kcount && (*both || is_v) => {
                     c += delta;
+                }
+                Dev::KConstStruct { k, sel } if *k == ctx.kcount => {
+                    let ones: Vec<F> = t.iter().filter(|x| matches!(x.0, Variable::One())).map(|x| x.1).collect();
+                    let sum: F = ones.iter().cloned().sum();
+                    c += match sel {
+                        0 => -sum,
+                        1 => sum,
+                        2 => -ones.first().cloned().unwrap_or(F::zero()),
+                        _ => ones.last().cloned().unwrap_or(F::zero()),
+                    };
                 }
                 Dev::KCoef { k, term, delta } if *k == ctx.kcount && is_v && !t.is_empty() => {
                     let j = *term % t.len();
